@@ -105,6 +105,8 @@ def build(kind, r):
         else:
             p = trimesh.path.Path2D(entities=ents, vertices=V, process=False)
         p.metadata.update(_meta(r["salt"]))
+        if r.get("vattr"):
+            p.vertex_attributes["width"] = np.arange(len(V), dtype=np.float64) * 0.125
         return p
     if kind == "points":
         V = np.round(rs.uniform(-2, 2, (7, 3)), 4)
@@ -124,6 +126,17 @@ def build(kind, r):
         if r.get("points"):
             sc.add_geometry(trimesh.PointCloud(np.round(rs.uniform(-1, 1, (4, 3)), 3)), node_name="p", geom_name="pc")
         sc.metadata.update(_meta(r["salt"]))
+        if r.get("camera"):
+            from trimesh.scene.cameras import Camera
+
+            sc.camera = Camera(name="cam", resolution=(320, 240), fov=(50.0, 40.0), z_near=0.05, z_far=500.0)
+            sc.camera_transform = mx.hom(mx.rodrigues([0, 1, 0], 0.4), [0.5, 0.25, 6.0])
+        if r.get("lights"):
+            from trimesh.scene import lighting
+
+            sc.lights = [lighting.PointLight(name="lamp", color=[255, 200, 100, 255], intensity=3.5), lighting.SpotLight(name="spot", color=[10, 20, 30, 255], intensity=1.5, innerConeAngle=0.2, outerConeAngle=0.6)]
+            sc.graph.update(frame_to="lamp", frame_from="world", matrix=mx.hom(None, [0.0, 3.0, 1.0]))
+            sc.graph.update(frame_to="spot", frame_from="a", matrix=mx.hom(mx.rodrigues([1, 0, 0], 0.9), [1.0, 1.0, 1.0]))
         return sc
     if kind == "voxel":
         from trimesh.voxel import encoding as enc
@@ -206,7 +219,8 @@ def observe(kind, o, deep=True):
             out.update({"volume": float(o.volume), "bounds": np.array(o.bounds), "area": float(o.area)})
         return out
     if kind in ("path2d", "path3d"):
-        out = {"vertices": np.array(o.vertices), "entities": [{"type": type(e).__name__, "points": np.array(e.points).tolist(), "closed": bool(e.closed), "color": _plain(e.color), "layer": e.layer} for e in o.entities], "metadata": _plain(dict(o.metadata))}
+        out = {"vertices": np.array(o.vertices), "entities": [{"type": type(e).__name__, "points": np.array(e.points).tolist(), "closed": bool(e.closed), "color": _plain(e.color), "layer": e.layer} for e in o.entities], "metadata": _plain(dict(o.metadata)),
+               "vertex_attributes": {k: np.array(v) for k, v in o.vertex_attributes.items()}}
         if deep:
             out.update({"length": float(o.length), "bounds": np.array(o.bounds), "n_paths": len(o.paths)})
             if kind == "path2d":
@@ -219,6 +233,12 @@ def observe(kind, o, deep=True):
         for name, g in o.geometry.items():
             gk = "mesh" if isinstance(g, trimesh.Trimesh) else "points"
             out["geometry"][name] = observe(gk, g, deep=False)
+        if o.has_camera:
+            cam = o.camera
+            out["camera"] = {"name": cam.name, "resolution": np.array(cam.resolution), "fov": np.array(cam.fov), "focal": np.array(cam.focal), "z_near": float(cam.z_near), "z_far": float(cam.z_far), "transform": np.array(o.camera_transform)}
+        if getattr(o, "_lights", None) is not None:
+            # (explicitly assigned lights only: reading `lights` on a scene without any generates some and adds nodes)
+            out["lights"] = [{"type": type(L).__name__, "name": L.name, "color": np.array(L.color), "intensity": float(L.intensity), "cone": [float(getattr(L, "innerConeAngle", 0.0)), float(getattr(L, "outerConeAngle", 0.0))]} for L in o.lights]
         if deep and len(o.geometry):
             out["bounds"] = np.array(o.bounds)
             out["nodes_geometry"] = sorted(o.graph.nodes_geometry)
@@ -257,10 +277,10 @@ EDITS = {
     "mesh": ["v_item", "v_iadd", "f_flip", "apply_transform", "apply_scale", "color_item", "meta_nested", "meta_new", "attr_item", "density", "center_mass", "update_faces", "invert", "merge_vertices", "assign_vertices", "v_sort", "visual_assign", "color_other_item"],
     "mesh_texture": ["v_item", "apply_transform", "uv_item", "material_color", "image_pixel", "meta_nested", "update_faces"],
     "primitive": ["param_set", "param_inplace", "transform_inplace", "apply_transform", "apply_scale", "meta_nested", "density", "apply_translation"],
-    "path2d": ["v_item", "entity_points", "entity_color", "entity_layer", "apply_transform", "meta_nested", "entity_reverse", "v_iadd"],
-    "path3d": ["v_item", "entity_points", "entity_color", "entity_layer", "apply_transform", "meta_nested", "v_iadd"],
+    "path2d": ["v_item", "entity_points", "entity_color", "entity_layer", "apply_transform", "meta_nested", "entity_reverse", "v_iadd", "vattr_item"],
+    "path3d": ["v_item", "entity_points", "entity_color", "entity_layer", "apply_transform", "meta_nested", "v_iadd", "vattr_item"],
     "points": ["v_item", "color_item", "apply_transform", "meta_nested", "v_iadd"],
-    "scene": ["edge_update", "geom_v_item", "geom_transform", "add_geometry", "delete_geometry", "meta_nested", "graph_setitem", "geom_color", "edge_meta_inplace", "geom_color_other"],
+    "scene": ["edge_update", "geom_v_item", "geom_transform", "add_geometry", "delete_geometry", "meta_nested", "graph_setitem", "geom_color", "edge_meta_inplace", "geom_color_other", "camera_param", "camera_move", "light_param"],
     "voxel": ["apply_transform", "apply_scale", "transform_inplace", "meta_nested", "encoding_item"],
 }
 
@@ -390,6 +410,10 @@ def apply_edit(kind, o, e):
             ent.points[1] = (int(ent.points[1]) + 1 + i % 2) % nv
         elif k == "entity_reverse":
             raise Inapplicable()
+        elif k == "vattr_item":
+            if "width" not in o.vertex_attributes:
+                raise Inapplicable()
+            o.vertex_attributes["width"][i % nv] = -d
         elif k == "entity_color":
             ent.color = [i % 256, 1, 2, 255]
         elif k == "entity_layer":
@@ -442,6 +466,25 @@ def apply_edit(kind, o, e):
                 g.visual.face_colors[i % len(g.faces)] = [1, 2, 3, 255]
             else:
                 raise Inapplicable()
+        elif k in ("camera_param", "camera_move"):
+            if not o.has_camera:
+                raise Inapplicable()
+            if k == "camera_move":
+                o.camera_transform = M
+            elif e.get("which", 0) % 3 == 0:
+                o.camera.fov = [30.0 + 10 * d, 25.0]
+            elif e.get("which", 0) % 3 == 1:
+                o.camera.z_far = 100.0 * (1 + d)
+            else:
+                o.camera.resolution = [64 + i % 64, 48]
+        elif k == "light_param":
+            if getattr(o, "_lights", None) is None:
+                raise Inapplicable()
+            L = o.lights[i % len(o.lights)]
+            if e.get("which", 0) % 2:
+                L.intensity = 1.0 + d
+            else:
+                L.color = [i % 256, 9, 9, 255]
         elif k == "edge_meta_inplace":
             attr = o.graph.transforms.edge_data.get(("a", "b"))
             if attr is None or not isinstance(attr.get("metadata"), dict) or "history" not in attr["metadata"]:
@@ -545,6 +588,10 @@ class C17(World):
         if kind == "scene":
             r["points"] = rng.random() < 0.4
             r["edge_meta"] = rng.random() < 0.7
+            r["camera"] = rng.random() < 0.4
+            r["lights"] = rng.random() < 0.3
+        if kind in ("path2d", "path3d"):
+            r["vattr"] = rng.random() < 0.5
         if kind == "voxel":
             r["encoding"] = rng.choice(["dense", "sparse", "rle"])
         return r
